@@ -91,5 +91,18 @@ def run(ctx):
     instance_memo_rule(ctx, "R01.6", [p.get_class(CLS_1D), p.get_class(CLS_2D)], "spectrum classes")
     positive_example(ctx, "R01.6")
     ctx.require_count("R01.6", 2)
+    # ---- R01.7 "moments of a sum are sums of moments", "scaling by c scales every moment": the arithmetic that builds the sum / the
+    # scaled spectrum leaves its operands as they were (effect analysis shared with C15) - otherwise the law fails on the second use
+    from .c15 import operand_rule
+    tg = []
+    for cq in (CLS_1D, CLS_2D):
+        c = p.get_class(cq)
+        for name in ("__add__", "__sub__", "__mul__", "__rmul__", "__neg__", "__truediv__", "multiply", "copy", "frequency_moment",
+                     "m0", "m1", "m2", "hm0", "tm01", "tm02", "e"):
+            m = c.find_method(name)
+            if m is not None:
+                tg.append((m, c))
+    operand_rule(ctx, "R01.7", p, tg)
+    ctx.require_count("R01.7", 16)
     ctx.require_count("R01.1", 4)
     ctx.require_count("R01.3", 30)
